@@ -11,6 +11,7 @@ import (
 
 	"github.com/filecoin-project/go-f3/certs"
 	"github.com/filecoin-project/go-f3/gpbft"
+	"github.com/filecoin-project/go-f3/pmsg"
 	"github.com/filecoin-project/go-f3/sim/signing"
 )
 
@@ -85,6 +86,8 @@ type gnet struct {
 	onSend    func(from int, msg *gpbft.GMessage) // adversary hook: sees every first transmission of an honest node
 	delay     func(from, to int, msg *gpbft.GMessage) (time.Duration, bool) // before stabilisation: explicit delay of one transmission
 	stopAt    time.Time                                                      // run() returns once the clock reaches this time
+	twoStage  bool                                                           // messages travel in partial form: partial validation, completion with the announced chain, full validation
+	primed    map[string]bool                                                // (receiver, message) pairs whose completion was postponed once
 	// network-level trace for the Layer-N network model (RefineRun.net_trace_ok)
 	rec     bool
 	acts    []string
@@ -340,7 +343,33 @@ func (g *gnet) deliver(pm *pendingMsg) {
 	if !n.honest || n.crashed {
 		return
 	}
-	vm, err := n.p.ValidateMessage(g.ctx, pm.msg)
+	var vm gpbft.ValidatedMessage
+	var err error
+	if g.twoStage {
+		// the message arrives without its chain (pmsg): partial validation against the announced key; the chain may be
+		// known only later (the message waits in partial form meanwhile); then completion and full validation
+		pg, serr := pmsg.VerifStrip(cloneMsg(pm.msg))
+		if serr != nil {
+			return
+		}
+		pvm, perr := n.p.PartiallyValidateMessage(g.ctx, pg)
+		err = perr
+		if perr == nil {
+			key := fmt.Sprintf("%d/%p", pm.to, pm.msg)
+			if !g.stabilised && !g.primed[key] && g.r.chance(35) {
+				if g.primed == nil {
+					g.primed = map[string]bool{}
+				}
+				g.primed[key] = true
+				g.pool = append(g.pool, &pendingMsg{to: pm.to, msg: pm.msg, from: pm.from, ready: g.now.Add(g.delta)})
+				return // chain not known yet: validated in partial form, delivered later
+			}
+			pmsg.VerifComplete(pg, pm.msg.Vote.Value)
+			vm, err = n.p.FullyValidateMessage(g.ctx, pvm)
+		}
+	} else {
+		vm, err = n.p.ValidateMessage(g.ctx, pm.msg)
+	}
 	if err != nil {
 		if g.nodes[pm.from].honest && errors.Is(err, gpbft.ErrValidationInvalid) {
 			g.viol("no valid message is ever branded invalid", "c05-honest-message-invalid", fmt.Sprintf("from %d to %d %s r%d: %v", pm.from, pm.to, pm.msg.Vote.Phase, pm.msg.Vote.Round, err))
